@@ -109,9 +109,11 @@ func engine(family, profile string, seed uint64, n int, out string, shard int, i
 			}
 			for _, cc := range []*eng.Case{cv, cp} {
 				stats.Add(cc)
-				cur = append(cur, cc.Coq())
+				if !cc.SkipModel {
+					cur = append(cur, cc.Coq())
+				}
 			}
-			if len(samples) < 2 {
+			if len(samples) < 2 && !cv.SkipModel {
 				samples = append(samples, cv.Coq(), cp.Coq())
 			}
 			if len(cur) >= shard {
